@@ -261,14 +261,11 @@ fn remove_group_from_index(monitor: &PgState, key: &ScopeGroupKey) {
     }
 }
 
-/// Sends notifications to scope-level and global world listeners.
-fn notify_world_listeners(
-    monitor: &PgState,
-    scope: &ScopeName,
-    group: &GroupName,
-    actors: &[ActorCell],
-    is_join: bool,
-) {
+/// Snapshot of the scope-level and global world listeners of `scope`, scope listeners first.
+///
+/// Callers take it while they hold the entry of the group they change, so that a change is
+/// reported to exactly the actors that monitor the scope at the time of the change.
+fn world_listeners_of(monitor: &PgState, scope: &ScopeName) -> Vec<ActorCell> {
     let scoped_key = ScopeGroupKey {
         scope: scope.to_owned(),
         group: ALL_GROUPS_NOTIFICATION.to_owned(),
@@ -278,22 +275,33 @@ fn notify_world_listeners(
         group: ALL_GROUPS_NOTIFICATION.to_owned(),
     };
 
+    let mut listeners = Vec::new();
     for key in [scoped_key, global_key] {
-        let listeners = monitor
-            .world_listeners
-            .get(&key)
-            .map(|entry| entry.value().clone());
-        if let Some(listeners) = listeners {
-            let change = if is_join {
-                GroupChangeMessage::Join(scope.to_owned(), group.clone(), actors.to_vec())
-            } else {
-                GroupChangeMessage::Leave(scope.to_owned(), group.clone(), actors.to_vec())
-            };
-            for listener in &listeners {
-                let _ = listener
-                    .send_supervisor_evt(SupervisionEvent::ProcessGroupChanged(change.clone()));
-            }
+        if let Some(entry) = monitor.world_listeners.get(&key) {
+            listeners.extend(entry.value().iter().cloned());
         }
+    }
+    listeners
+}
+
+/// Sends notifications to the given scope-level and global world listeners.
+fn notify_world_listeners(
+    listeners: &[ActorCell],
+    scope: &ScopeName,
+    group: &GroupName,
+    actors: &[ActorCell],
+    is_join: bool,
+) {
+    if listeners.is_empty() {
+        return;
+    }
+    let change = if is_join {
+        GroupChangeMessage::Join(scope.to_owned(), group.clone(), actors.to_vec())
+    } else {
+        GroupChangeMessage::Leave(scope.to_owned(), group.clone(), actors.to_vec())
+    };
+    for listener in listeners {
+        let _ = listener.send_supervisor_evt(SupervisionEvent::ProcessGroupChanged(change.clone()));
     }
 }
 
@@ -331,7 +339,7 @@ pub fn join_scoped(scope: ScopeName, group: GroupName, actors: Vec<ActorCell>) {
     crate::verif::point("pg.join.filtered");
 
     let mut stopped_relations = Vec::new();
-    let (joined, listeners) = {
+    let (joined, listeners, world_listeners) = {
         let mut entry = monitor.map.entry(key.clone()).or_default();
         let group_state = entry.value_mut();
         let mut processed = HashSet::with_capacity(actors.len());
@@ -363,7 +371,11 @@ pub fn join_scoped(scope: ScopeName, group: GroupName, actors: Vec<ActorCell>) {
             add_group_to_index(monitor, &key);
         }
 
-        (joined, group_state.listeners.clone())
+        (
+            joined,
+            group_state.listeners.clone(),
+            world_listeners_of(monitor, &scope),
+        )
     };
 
     #[cfg(feature = "verif")]
@@ -389,7 +401,7 @@ pub fn join_scoped(scope: ScopeName, group: GroupName, actors: Vec<ActorCell>) {
         ));
     }
 
-    notify_world_listeners(monitor, &scope, &group, &joined, true);
+    notify_world_listeners(&world_listeners, &scope, &group, &joined, true);
 }
 
 /// Leaves the specified [crate::Actor]s from the PG group in the default scope
@@ -423,18 +435,19 @@ pub fn leave_scoped(scope: ScopeName, group: GroupName, actors: Vec<ActorCell>) 
         }
 
         let listeners = group_state.listeners.clone();
+        let world_listeners = world_listeners_of(monitor, &scope);
         if group_state.members.is_empty() {
             remove_group_from_index(monitor, &key);
             if group_state.listeners.is_empty() {
                 entry.remove();
             }
         }
-        Some(listeners)
+        Some((listeners, world_listeners))
     } else {
         None
     };
 
-    let Some(listeners) = result else {
+    let Some((listeners, world_listeners)) = result else {
         return;
     };
 
@@ -446,7 +459,7 @@ pub fn leave_scoped(scope: ScopeName, group: GroupName, actors: Vec<ActorCell>) 
         ));
     }
 
-    notify_world_listeners(monitor, &scope, &group, &actors, false);
+    notify_world_listeners(&world_listeners, &scope, &group, &actors, false);
 }
 
 /// Leave all groups for a specific [ActorId].
@@ -470,13 +483,14 @@ pub(crate) fn leave_all(actor: ActorId) {
             let group_state = entry.get_mut();
             if let Some(actor_cell) = group_state.members.remove(&actor) {
                 let listeners = group_state.listeners.clone();
+                let world_listeners = world_listeners_of(monitor, &key.scope);
                 if group_state.members.is_empty() {
                     remove_group_from_index(monitor, &key);
                     if group_state.listeners.is_empty() {
                         entry.remove();
                     }
                 }
-                removal_events.push((key, actor_cell, listeners));
+                removal_events.push((key, actor_cell, listeners, world_listeners));
             }
         }
     }
@@ -487,7 +501,7 @@ pub(crate) fn leave_all(actor: ActorId) {
 
     #[cfg(feature = "verif")]
     crate::verif::point("pg.leave_all.notify");
-    for (scope_and_group, cell, per_group_listeners) in &removal_events {
+    for (scope_and_group, cell, per_group_listeners, world_listeners) in &removal_events {
         for listener in per_group_listeners {
             let _ = listener.send_supervisor_evt(SupervisionEvent::ProcessGroupChanged(
                 GroupChangeMessage::Leave(
@@ -499,7 +513,7 @@ pub(crate) fn leave_all(actor: ActorId) {
         }
 
         notify_world_listeners(
-            monitor,
+            world_listeners,
             &scope_and_group.scope,
             &scope_and_group.group,
             std::slice::from_ref(cell),
